@@ -267,6 +267,9 @@ func checkTyped(c *runner.Ctx, tc *typedCase) bool {
 			cls += ",hrd"
 		}
 		pl, ok := roundTrip(c, "typed/pictiming-avc", x, sei.SEIPicTimingType, cls, wit, decs)
+		if ok && tc.PT.HasDelays {
+			sharedHRD(c, tc, x, wit)
+		}
 		c.Seen("pictiming_avc_pic_struct", fmt.Sprint(tc.PT.PicStruct))
 		c.Seen("pictiming_avc_syntax_bits_mod_8", fmt.Sprint(nbits%8))
 		c.Seen("pictiming_avc_hrd", fmt.Sprint(tc.PT.HasDelays))
@@ -395,4 +398,44 @@ func typedIn(t uint, codec sei.Codec) bool {
 		return codec == sei.HEVC
 	}
 	return false
+}
+
+
+// sharedHRD decodes two picture timing messages with different delays through
+// ONE caller-owned HRD parameter struct, as a caller does for a stream: the
+// first decoded message must not change when the second one is decoded, and
+// the caller's struct must not be written to.
+func sharedHRD(c *runner.Ctx, tc *typedCase, x *sei.PicTimingAvcSEI, wit interface{}) {
+	pt2 := *tc.PT
+	pt2.CpbRemovalDelay = (tc.PT.CpbRemovalDelay + 1) & (1<<tc.PT.CpbRemovalLen - 1)
+	pt2.DpbOutputDelay = (tc.PT.DpbOutputDelay + 1) & (1<<tc.PT.DpbOutputLen - 1)
+	x2 := libPicTiming(&pt2, tc.TimeOffsetLen, tc.InitialLenMinus1)
+	shared := &sei.CbpDbpDelay{InitialCpbRemovalDelayLengthMinus1: tc.InitialLenMinus1,
+		CpbRemovalDelayLengthMinus1: byte(tc.PT.CpbRemovalLen - 1), DpbOutputDelayLengthMinus1: byte(tc.PT.DpbOutputLen - 1)}
+	before := *shared
+	var mA, mB sei.SEIMessage
+	var errA, errB error
+	var plA []byte
+	pi := c.Guard(func() {
+		mA, errA = sei.DecodePicTimingAvcSEIHRD(sei.NewSEIData(sei.SEIPicTimingType, x.Payload()), shared, byte(tc.TimeOffsetLen))
+		if errA == nil && mA != nil {
+			plA = append([]byte(nil), mA.Payload()...)
+		}
+		mB, errB = sei.DecodePicTimingAvcSEIHRD(sei.NewSEIData(sei.SEIPicTimingType, x2.Payload()), shared, byte(tc.TimeOffsetLen))
+	})
+	c.Count("shared_hrd_sequences", 1)
+	if pi != nil || errA != nil || errB != nil || mA == nil || mB == nil {
+		return // decode problems are reported by the round-trip check itself
+	}
+	if *shared != before {
+		c.Violation("typed/pictiming-avc/shared-hrd/caller-struct-modified", fmt.Sprintf("DecodePicTimingAvcSEIHRD wrote into the caller's CbpDbpDelay: %+v -> %+v", before, *shared), wit)
+		return
+	}
+	var plA2 []byte
+	if pi := c.Guard(func() { plA2 = mA.Payload() }); pi != nil {
+		return
+	}
+	if !bytes.Equal(plA, plA2) {
+		c.Violation("typed/pictiming-avc/shared-hrd/earlier-message-changed", fmt.Sprintf("the first decoded message changed when a second message was decoded with the same HRD parameters: payload %x -> %x", plA, plA2), wit)
+	}
 }
